@@ -107,6 +107,26 @@ CLAIMED = {
          "DESIGN.md section 5 C18"),
 }
 
+# dimensions added after the seeded-change rounds 3 and 4 (appended to the level text)
+ADDED = {
+ "C01": " Big sets also vary the index base name, use literal odd protected names (backslash, glob and shell characters, spaces), protected siblings and bystanders with temporary-file / backup suffixes, duplicated volumes and a copy of the index.",
+ "C02": " Bystanders with names derived from the names Create / Repair read and write (.tmp, ~, .bak) are present around every Create and Repair of the big sets.",
+ "C03": " Big sets include volumes copied under another name (distinct-block count), literal odd names and several index base names.",
+ "C04": " Big sets vary the index base name and include protected siblings with temporary-file / backup suffixes.",
+ "C05": " A reduced list of sets with large coding matrices is recorded again in processes started with other GOMAXPROCS values.",
+ "C07": " Erasure patterns whose elimination needs overlapping row exchanges are found by simulating the elimination with the independent field; 2 MiB shards; the seeded codes are run again under GOMAXPROCS=3.",
+ "C08": " A reduced list (table ends, chunk boundaries, all inverses) is recorded again in processes started with other GOMAXPROCS values.",
+ "C09": " Buffers of 2 MiB and more (>= 65536 SIMD blocks); a reduced list (top constants, chunk boundaries) is recorded again under other GOMAXPROCS values.",
+ "C10": " Reference-written layouts include entries named like another entry plus a temporary-file / backup suffix.",
+ "C11": " Dimensions 257 and 300 in the quick tier; small matrices whose elimination factors are the table's top constants are recorded again under other GOMAXPROCS values.",
+ "C13": " The goroutine count varies with the case; data state 'all protected files gone' within capacity.",
+ "C14": " Convergence includes the within-capacity clauses (once the recovery files present suffice, Repair succeeds).",
+ "C15": " Create refusal cases include siblings whose names merely start with the archive directory's name; names include the compound component x/..",
+ "C17": " Dimensions: five input orders, goroutine counts incl. 3, default slice size, and 'prior' (the directory already holds longer files under the names Create writes).",
+ "C19": " PAR1 sets of 255, 256, 257 and 300 entries.",
+ "C20": " Two index base names; archive state 'appended'; a share of the cases runs with GOMAXPROCS=1 and 3.",
+}
+
 NOT_YET = "check under construction in this round; not claimed until it runs green on the unchanged tree"
 
 def main():
@@ -144,7 +164,7 @@ def main():
                 "evidence_file": "/verif/evidence/%s.json" % pid,
                 "replay_cmd_template": "./check %s --replay {path}" % pid,
                 "engine": "tlc",
-                "level_claimed": {"category": cat, "text": text, "design_ref": ref},
+                "level_claimed": {"category": cat, "text": text + ADDED.get(pid, ""), "design_ref": ref},
                 "level_note": note,
                 "technique": tech,
             })
